@@ -120,11 +120,28 @@ PROPS = {
                        'One genuine defect repaired (choice made inside the loop: only the first healthy replica ever served reads). Uniformity of math/rand is trusted.',
         'assumptions': ['uniformity of math/rand', 'the 5-second health monitor goroutine is outside the model (only its effect on the ban flags is state)'],
     },
+    'C18': {
+        'props': 'Props/C18.v',
+        'suites': [{'name': 'authip', 'oracles': {'authip': 'o_authip'}, 'trivial_tags': ['adds-only'], 'vm_sample': 20}],
+        'rule': 'histories of 1-10 whitelist file versions (adds, removals, enable/disable toggles, duplicates, empty list) written as YAML and loaded through the production parse path; '
+                'admission of 8 probe addresses decided by the production OnCOpened on a stepper connection (open and silent vs closed); plus the REAL fsnotify watcher: edits applied in place, '
+                'by rename-over and by remove+create, admitted set polled up to 3 s. distinct = distinct history; non-trivial = history contains a removal or runs through the watcher',
+        'explanation': 'Theorems: after any history of loaded versions an address is admitted iff the last version is disabled or lists it (removals included); admission is decided on the ip part of ip:port; '
+                       'Write/Create/Rename events of the file reload. Two genuine defects repaired (removed addresses stayed admitted; rewrite-by-rename never reloaded). '
+                       'That a rejected connection is closed before any read is the event-loop open/handleAction path, exercised here through the stepper.',
+        'assumptions': ['YAML parsing and inotify/fsnotify semantics are outside the model (the watcher is exercised for real in the suite)', 'IPv4 client addresses', 'the unsynchronised enable flag (data race between watcher goroutine and event loop) is outside the model'],
+    },
 }
 
 NOT_YET = {}
 
 MANIFEST_TEXT = {
+    'C18': {
+        'text': 'Coq theorems: admitted set after any version history = last version (additions and removals); admission on the address part; reload event filter. Tied to parseAuthIp/Validate/OnCOpened '
+                'by loading real YAML files and connecting through the stepper, and to the watcher by real edits (in place, rename-over, remove+create).',
+        'note': 'Trusted: Coq kernel, extraction, harness + authip hooks. inotify, YAML and the goroutine data race on the enable flag are not modelled.',
+        'technique': 'Coq proof (fold over version histories) + differential correspondence incl. the real file watcher',
+    },
     'C04': {
         'text': 'Coq theorems: route returns the master or a live replica of the owning set for all sets/types/settings/random values; role rules; data theorems over the command table '
                 'regenerated from source; handshake bytes. Tied to listenServer.route and OnSOpened by differential run with recorded rand.Intn values.',
